@@ -96,6 +96,9 @@ class Documents(HypPart):
     def strategy(self, tier):
         return hex_tapes(20, 500 if tier == 'quick' else 1500).map(lambda h: {'tape': h, 'opts': {}})
 
+    def describe(self, case):
+        return c03.build(case, {'exclude': c03.Documents().excludes(), 'refs': int(case['tape'][:2] or '0', 16) % 2 == 0})[1]
+
     def check(self, case):
         return check_case(case, c03.Documents().excludes())
 
